@@ -651,6 +651,7 @@ func genC04(r *rng.R, tier string, steer bool, idx int) *trace.Trace {
 	type obj struct {
 		path      string
 		group     bool
+		vlen      bool
 		resizable []uint64
 	}
 	var objs []obj
@@ -662,6 +663,14 @@ func genC04(r *rng.R, tier string, steer bool, idx int) *trace.Trace {
 		if r.Chance(0.2) {
 			t.Ops = append(t.Ops, trace.Op{Op: "create_group", Path: p})
 			objs = append(objs, obj{path: p, group: true})
+			return
+		}
+		if r.Chance(0.12) {
+			// a variable-length dataset: its elements live in global heap collections
+			// that are flushed later (at Close or on roll-over), next to other objects
+			c, w := genVLen(r, p, 6, r.Chance(0.5))
+			t.Ops = append(t.Ops, c, w)
+			objs = append(objs, obj{path: p, vlen: true})
 			return
 		}
 		op := genDatasetOp(r, p, true, []string{"Int32", "Float64", "Int64", "String", "Float32"})
@@ -678,7 +687,28 @@ func genC04(r *rng.R, tier string, steer bool, idx int) *trace.Trace {
 	}
 	createOne()
 	createOne()
+	// some histories continue in a later session (allocator re-seeded from the
+	// file size) and/or push one object into dense attribute storage, which
+	// allocates a heap and an index next to whatever was allocated last
+	restartAt := -1
+	if r.Chance(0.3) {
+		restartAt = r.Range(3, maxOps)
+	}
 	for len(t.Ops) < maxOps {
+		if restartAt >= 0 && len(t.Ops) >= restartAt {
+			t.Ops = append(t.Ops, trace.Op{Op: "restart", Mode: "open_for_write"})
+			restartAt = -1
+			continue
+		}
+		if r.Chance(0.04) && len(t.Ops)+9 < maxOps+12 {
+			o := objs[r.Intn(len(objs))]
+			if !o.group {
+				for k := 0; k < 9; k++ {
+					t.Ops = append(t.Ops, trace.Op{Op: "write_attr", Path: o.path, Name: fmt.Sprintf("b%d", k), Value: genValue(r, "int32", false)})
+				}
+				continue
+			}
+		}
 		if created < nobj && r.Chance(0.25) {
 			createOne() // creating a new sibling
 			continue
@@ -691,7 +721,9 @@ func genC04(r *rng.R, tier string, steer bool, idx int) *trace.Trace {
 		o := objs[i]
 		switch r.Weighted([]int{30, 35, 8, 10, 7}) {
 		case 0:
-			if !o.group {
+			if o.vlen {
+				t.Ops = append(t.Ops, trace.Op{Op: "write", Path: o.path, Data: genVLenData(r, r.Chance(0.5))})
+			} else if !o.group {
 				t.Ops = append(t.Ops, trace.Op{Op: "write", Path: o.path, Data: genData(r)})
 			}
 		case 1:
